@@ -35,13 +35,50 @@ fn neutralise(src: &str) -> String {
     out
 }
 
+const SHADOW: &str = "#[allow(unused_imports)] mod std { pub use crate::seams::shadow_std::*; } ";
+
+/// Helper modules next to the generators (`mod common;` -> src/bin/common.rs or
+/// src/bin/common/mod.rs): copied alongside, with the same shadow `std` the generator modules get
+/// (prepended on the first line, so line numbers stay), so that file I/O, hash containers and
+/// threads in a helper are behind the same seams.
+fn copy_helpers(from: &Path, to: &Path, top: bool) {
+    let Ok(rd) = std::fs::read_dir(from) else { return };
+    for e in rd.flatten() {
+        let p = e.path();
+        let name = e.file_name();
+        let n = name.to_string_lossy().to_string();
+        if top && (n == "generate_layout.rs" || n == "generate_likelysubtags.rs") {
+            continue;
+        }
+        if p.is_dir() {
+            let sub = to.join(&name);
+            let _ = std::fs::create_dir_all(&sub);
+            copy_helpers(&p, &sub, false);
+        } else if n.ends_with(".rs") {
+            if let Ok(text) = std::fs::read_to_string(&p) {
+                let _ = std::fs::write(to.join(&name), format!("{}{}", SHADOW, neutralise(&text)));
+            }
+        } else {
+            let _ = std::fs::copy(&p, to.join(&name));
+        }
+    }
+}
+
 fn main() {
     let out_dir = std::env::var("OUT_DIR").unwrap();
+    let bin = Path::new("/repo/unic-langid-impl/src/bin");
+    // the whole directory: helper modules may come and go
+    println!("cargo:rerun-if-changed={}", bin.display());
     for name in ["generate_layout.rs", "generate_likelysubtags.rs"] {
-        let src = Path::new("/repo/unic-langid-impl/src/bin").join(name);
+        let src = bin.join(name);
         println!("cargo:rerun-if-changed={}", src.display());
         let text = std::fs::read_to_string(&src).unwrap_or_else(|e| panic!("{}: {}", src.display(), e));
         std::fs::write(Path::new(&out_dir).join(name), neutralise(&text)).unwrap();
     }
+    copy_helpers(bin, Path::new(&out_dir), true);
     println!("cargo:rerun-if-changed=build.rs");
+    // The generators are compiled inside this crate: compile-time crate paths
+    // (`env!("CARGO_MANIFEST_DIR")`, also inside `concat!`/`include_str!`) must still name the
+    // crate they belong to. The harness itself never uses this variable.
+    println!("cargo:rustc-env=CARGO_MANIFEST_DIR=/repo/unic-langid-impl");
 }
